@@ -47,6 +47,10 @@ def snap(pl):
 
 
 def refs_equal(ctx, sig, got_pl, want_fs, what, extra):
+    return refs_equal_tol(ctx, sig, got_pl, want_fs, what, extra, TOL)
+
+
+def refs_equal_tol(ctx, sig, got_pl, want_fs, what, extra, tol):
     """Exact class: persim's result functions == reference functions everywhere (missing depth = 0)."""
     ctx.valid()
     try:
@@ -57,7 +61,7 @@ def refs_equal(ctx, sig, got_pl, want_fs, what, extra):
     for k in range(max(len(got), len(want_fs))):
         g = got[k] if k < len(got) else []
         w = want_fs[k] if k < len(want_fs) else []
-        ok, t = P.equal_everywhere(g, w, tol=TOL)
+        ok, t = P.equal_everywhere(g, w, tol=tol)
         if not ok:
             ctx.violation(sig, "%s is not the pointwise operation at depth %d, t=%s" % (what, k + 1, float(t)),
                           observed=float(P.ev(g, t)), expected=float(P.ev(w, t)), extra=extra)
@@ -188,6 +192,14 @@ def exact_row(case, ctx):
         ctx.valid()
         if snap(A) != sA or snap(B) != sB:
             ctx.violation("operand-modified", "A+B / A-B changed an operand", observed=[snap(A)[2], snap(B)[2]], expected=[sA[2], sB[2]], extra=ex2)
+        # the same pair translated to negative abscissae (a breakpoint at exactly 0) and rescaled
+        for c_, a_ in ((-2.0, 1.0), (0.0, 1e-6)):
+            tr = lambda pl: PersLandscapeExact(critical_pairs=[[[a_ * x + c_, a_ * y] for x, y in d] for d in pl.critical_pairs], hom_deg=0)  # noqa: E731
+            A2, B2 = tr(A), tr(B)
+            fa2, fb2 = lsops.exact_ref(A2), lsops.exact_ref(B2)
+            D2 = ctx.call(lambda: A2 - B2)
+            global TOL
+            refs_equal_tol(ctx, "exact-sub", D2, [P.sub(z(fa2, i), z(fb2, i)) for i in range(n)], "A-B (x -> %r*x%+r)" % (a_, c_), ex2, TOL * a_)
 
 
 def grid_row(case, ctx):
